@@ -11,7 +11,8 @@ constants of the bulk-data writers, and the slicing constants of the card reader
   _wt_with_thru   `len(fields) == 9`, the word "THRU"
   wtset           the three token f-strings, `rstrip(", ")`, the separator "" and the default max_length
   wtgrids         the four `string = ...` templates (8 / 16 wide, short / PS+SEID) and the default `form`
-  wttabled1       header templates, line leads, pairs per line (`npts // 2`, `npts // 4`, `form * 2`, `form * 4`),
+  wttabled1       the default-form block (`if form == '<default>':` both columns through `_dmig_field`, then `'{:s}{:s}'`),
+                  header templates, line leads, pairs per line (`npts // 2`, `npts // 4`, `form * 2`, `form * 4`),
                   "ENDT", the default `form`
   wtcoordcards    the three line templates and the noise floor `1e-15`
   rdcards / _rdfixed / _rdcomma
@@ -357,6 +358,28 @@ def extract(repo):
         raise Unparsable("wttabled1: vecwrite column slices changed")
     _has(fn, r"if rows > 0:", "wttabled1 empty-block guard (fix 9aba476)", 2)
     _has(fn, r"if n == 32:", "wttabled1 width test", 1)
+    # the default case (fix 328435d, finding F65): `if form == "<default>":` pre-formats both columns value by value through
+    # the 16-character helper of wtdmig and hands the strings on with the pair format '{:s}{:s}' - after the width test on
+    # `form`, before anything is written
+    dt = [n for n in ast.walk(fn) if isinstance(n, ast.If) and re.match(r"^form == '[^']*'$", ast.unparse(n.test))]
+    if len(dt) != 1 or dt[0].orelse:
+        raise Unparsable("wttabled1: expected exactly one `if form == '<default form>':` block without else (the per-value "
+                         "formatting of the default case), found %d" % len(dt))
+    dt = dt[0]
+    S["tabDefaultTest"] = dt.test.comparators[0].value
+    nl = [n.lineno for n in ast.walk(fn) if isinstance(n, ast.Assign) and ast.unparse(n) == "n = len(form.format(1, 1))"]
+    if len(nl) != 1 or not (nl[0] < dt.lineno < min(x.lineno for x in w)):
+        raise Unparsable("wttabled1: the default-form block is not between `n = len(form.format(1, 1))` and the first f.write")
+    body = [ast.unparse(st) for st in dt.body]
+    m = [re.match(r"^%s = np\.array\(\[(\w+)\(v\) for v in %s\], dtype=str\)$" % (v, v), b) for v, b in zip("td", body[:2])]
+    if len(body) != 3 or not all(m) or m[0].group(1) != m[1].group(1):
+        raise Unparsable("wttabled1: the default-form block is not `t = np.array([<helper>(v) for v in t], dtype=str)`, the "
+                         "same for d, `form = '<pair format>'`")
+    S["tabPreHelper"] = m[0].group(1)
+    m = re.match(r"^form = '([^']*)'$", body[2])
+    if not m:
+        raise Unparsable("wttabled1: the default-form block does not end with `form = '<pair format>'`")
+    S["tabPreForm"] = m.group(1)
     _has(fn, r"tablestr = tablestr \+ '\*'", "wttabled1 wide name", 1)
 
     # ---- wtcoordcards -------------------------------------------------------------------------
@@ -418,7 +441,7 @@ T_ORDER = ["dmigHeader", "dmigColCard", "dmigRowLine", "dmigField", "dmigFieldFa
 C_ORDER = ["dmigFieldWidth", "dmigSymForm", "dmigFormSingle", "dmigFormRect", "dmigFormSymW", "dmigFormSquare", "nasintsFirst", "nasintsPerLine",
            "csuperStart", "extrnStart", "thruFlush", "setMaxLength", "tabWidePerLine", "tabSmallPerLine", "cordNoiseExp",
            "rdLineLen", "rdNameLen", "rdWideField", "rdSmallField", "rdWideInc", "rdSmallInc", "rdCommaTokens", "rdCommaInc"]
-S_ORDER = ["gridDefaultForm", "tabDefaultForm", "tabDefaultName", "conComma", "conWide", "conSmall"]
+S_ORDER = ["gridDefaultForm", "tabDefaultForm", "tabDefaultName", "tabDefaultTest", "tabPreHelper", "tabPreForm", "conComma", "conWide", "conSmall"]
 
 
 def _lean_str(s):
